@@ -437,6 +437,16 @@ func (ex *Exec) pseudoFrame(fn *ssa.Function, key string, sp *FuncSpec, args []V
 func (ex *Exec) contractCall(st *State, fr *Frame, instr ssa.Instruction, fn *ssa.Function, key string, sp *FuncSpec, args []Val, binds []Val, resT types.Type) Val {
 	ex.use("contract:" + key)
 	ex.callUnderLock(st, fr, instr, fn, key)
+	if len(st.held) > 0 {
+		// locks the callee may take are taken while ours are held
+		taken := map[string]bool{}
+		ex.locksTakenBy(fn, map[*ssa.Function]bool{}, taken)
+		for _, h := range st.held {
+			for t := range taken {
+				ex.lockEdge(h.Key, t, fr.key+" -> "+key)
+			}
+		}
+	}
 	st.bump("call:" + key)
 	pf := ex.pseudoFrame(fn, key, sp, args, binds, st)
 	ord := 0
